@@ -7,6 +7,7 @@ import (
 	"sort"
 	"strings"
 	"sync"
+	"sync/atomic"
 	"time"
 
 	coreerrors "tunnox-core/internal/core/errors"
@@ -213,13 +214,13 @@ func (r *nodeRig) release(n, id string) (res genRes) {
 // writes counts the heartbeat renewals (plain Set) of the claim key of slot s, per tier
 func (r *nodeRig) writes(n string, s int) (claimTier, localTier int) {
 	for _, c := range r.claim.Log() {
-		if c.Op == "Set" && c.Key == slotKey(s) {
+		if c.Op == "Set" && c.Key == slotKey(s) && c.Err == "" {
 			claimTier++
 		}
 	}
 	if c := r.caches[n]; c != nil {
 		for _, x := range c.Log() {
-			if x.Op == "Set" && x.Key == slotKey(s) {
+			if x.Op == "Set" && x.Key == slotKey(s) && x.Err == "" {
 				localTier++
 			}
 		}
@@ -254,6 +255,30 @@ func driveNode(env *fw.Env, b *behaviour) *fw.Trace {
 	}
 	cur := map[string]*ncall{}
 	var started []*ncall
+	// timed behaviours are judged only if this process was never starved: a goroutine ticking every
+	// 50 ms records the longest gap it saw (a stall of the whole process would delay heartbeats and
+	// the driver alike while the store's real-time TTLs run on)
+	var maxGap atomic.Int64
+	if b.Timed {
+		stop := make(chan struct{})
+		defer close(stop)
+		go func() {
+			last := time.Now()
+			for {
+				select {
+				case <-stop:
+					return
+				case <-time.After(50 * time.Millisecond):
+				}
+				now := time.Now()
+				if g := int64(now.Sub(last)); g > maxGap.Load() {
+					maxGap.Store(g)
+				}
+				last = now
+			}
+		}()
+	}
+	silent := map[string]bool{}     // a live node whose heartbeat was not seen for 45 s
 	hold := map[string]int{}        // slot a live node holds (as returned by the real code)
 	seen := map[string]int{}        // renewals of that node already consumed by Renew steps
 	lastW := map[string]time.Time{} // time of the claim / last renewal consumed
@@ -304,6 +329,9 @@ func driveNode(env *fw.Env, b *behaviour) *fw.Trace {
 		observeExpiries()
 		r.snapshot(t)
 		t.Note = note
+		if g := time.Duration(maxGap.Load()); g > 10*time.Second {
+			return &fw.Trace{Status: fw.Inconclusive, Note: fmt.Sprintf("this process was stalled for %v during a timed behaviour", g)}
+		}
 		return t
 	}
 	at := func(a *ncall, op string, s int) bool {
@@ -418,20 +446,43 @@ func driveNode(env *fw.Env, b *behaviour) *fw.Trace {
 			if s == 0 {
 				return div("node holds nothing")
 			}
-			deadline := lastW[n].Add(45 * time.Second) // ticker period 30 s, margin 1.5x; beyond that the run is not judged
+			if silent[n] {
+				// the heartbeat of this live node has stopped: the model's renewal does not happen, the
+				// period of real time it stands for passes all the same
+				time.Sleep(30 * time.Second)
+				continue
+			}
+			deadline := lastW[n].Add(45 * time.Second) // ticker period 30 s, margin 1.5x
+			if st.R == "fail" {
+				r.fault.arm("Set", slotKey(s)) // transient store error for this renewal
+			}
 			var c, l int
-			for {
-				c, l = r.writes(n, s)
-				if c+l > seen[n] {
-					break
+			heard := false
+			for !heard {
+				if st.R == "fail" {
+					heard = r.fault.delivered()
+				} else {
+					c, l = r.writes(n, s)
+					heard = c+l > seen[n]
 				}
-				if time.Now().After(deadline) {
-					return &fw.Trace{Status: fw.Inconclusive, Note: fmt.Sprintf("no heartbeat of %s within 45 s", n)}
+				if !heard {
+					if time.Now().After(deadline) {
+						break
+					}
+					time.Sleep(20 * time.Millisecond)
 				}
-				time.Sleep(20 * time.Millisecond)
+			}
+			if !heard {
+				r.fault.disarm()
+				silent[n] = true
+				t.Note += fmt.Sprintf("[diverged at step %d: no heartbeat of live node %s for 45 s] ", i, n)
+				continue
+			}
+			lastW[n] = time.Now()
+			if st.R == "fail" {
+				continue
 			}
 			seen[n]++
-			lastW[n] = time.Now()
 			where := "local"
 			if r.wiring != "split" || l == 0 {
 				where = "claim"
